@@ -41,6 +41,45 @@ class RootGroup(NoTypeGroup):
         self._allow_rename = False
         self._name = self.__ROOT_NAME
 
+    def copy(
+        self,
+        parent=None,
+        copy_children: bool = True,
+        clear_cache: bool = False,
+        mask=None,
+        **kwargs,
+    ):
+        """
+        Copy the content of the workspace under a new container group.
+
+        A workspace has a single root: the copy is an ordinary group holding
+        copies of the children of the root.
+        """
+        # pylint: disable=import-outside-toplevel
+        from .container import ContainerGroup
+
+        if parent is None:
+            parent = self
+
+        children = list(self.children)
+        workspace = getattr(parent, "workspace", parent)
+        new_group = ContainerGroup.create(
+            workspace,
+            parent=parent if parent is not workspace else None,
+            name=kwargs.get("name", self.workspace.name),
+        )
+
+        if copy_children:
+            for child in children:
+                child.copy(
+                    parent=new_group,
+                    copy_children=True,
+                    clear_cache=clear_cache,
+                    mask=mask,
+                )
+
+        return new_group
+
     @property
     def parent(self):
         """
